@@ -337,7 +337,7 @@ class VM:
             return self.get(st.mem, a.val, self.W, self.sizes['state'])
         return self.get(self.const, a.val, self.W, self.sizes['const'])
 
-    def resolve_addr(self, st, conds, addr, work, ins=None, kind=None, n=0):
+    def resolve_addr(self, st, conds, addr, work, ins=None, kind=None, n=0, limit=None):
         """concrete address; forks on the other feasible values of a symbolic address"""
         if isc(addr):
             return addr, conds
@@ -348,6 +348,15 @@ class VM:
             if self.mon is not None and kind is not None:
                 # too many values to enumerate: let the monitor ask the solver for one outside the permitted regions
                 self.mon.wide(self, st, ins, kind, addr, n, conds)
+            if limit is not None:
+                # ... and without a monitor: is some value outside the section altogether?  Then the path condition is narrowed to
+                # such a value, so that the model handed to the replay is an input that really performs the wild access.
+                out = z3.UGT(addr, z3.BitVecVal(max(limit - n, 0), self.B)) if limit >= n else z3.BoolVal(True)
+                if self.feasible(conds, out):
+                    self._c = list(conds) + [out]
+                    self.wide = (addr, list(conds))
+                    raise Unspecified('access outside its section: the address has more than %d feasible values, some of them beyond the section (%d bytes)' % (self.addr_cap, limit))
+            self.wide = (addr, list(conds))
             raise Unspecified('address has more than %d feasible values' % self.addr_cap)
         for v in vals[1:]:
             self.nforks += 1
@@ -527,7 +536,7 @@ class VM:
                 addr = self.opval(st, A[1])
                 if len(op) == 4:
                     addr = T.arith('add', addr, self.opval(st, A[2]))
-                addr, conds = self.resolve_addr(st, conds, addr, work, ins, 'load' if op[2] == 's' else None, n)
+                addr, conds = self.resolve_addr(st, conds, addr, work, ins, 'load' if op[2] == 's' else None, n, limit=ssize if op[2] == 's' else csize)
                 self._c = conds
                 if op[2] == 's':
                     if mon is not None:
@@ -550,7 +559,7 @@ class VM:
                 addr = self.opval(st, A[0])
                 if len(op) == 4:
                     addr = T.arith('add', addr, self.opval(st, A[1]))
-                addr, conds = self.resolve_addr(st, conds, addr, work, ins, 'store', n)
+                addr, conds = self.resolve_addr(st, conds, addr, work, ins, 'store', n, limit=ssize)
                 self._c = conds
                 if addr < 0 or addr + n > ssize:
                     raise Unspecified('store outside state section at %d' % addr)
